@@ -113,6 +113,15 @@ def rewriteFilters {α} [DecidableEq α] (p : T α) : T α :=
     | none => p
     | some r => r
 
+/-! ### 2b. how `Filter._simplify_up` re-assembles its parent after the rewrite -/
+
+/-- `type(parent)(Filter(frame, result), *parent.operands[1:])` on the parent's operand list -/
+def rebuildFirst {ε} (operands : List ε) (new : ε) : List ε := new :: operands.drop 1
+
+/-- replacing the operand that is the filter, wherever it sits (what `parent.substitute(self, new)` does at depth 1) -/
+def substituteOperand {ε} [DecidableEq ε] (operands : List ε) (self new : ε) : List ε :=
+  operands.map (fun o => if o = self then new else o)
+
 /-! ### 3. `is_filter_pushdown_available`, the counting part
     (`inPredicate` = result of `_check_dependents_are_predicates`, computed by the real function) -/
 
